@@ -102,7 +102,21 @@ def run_drive(binary, jobs, work, name="ev", timeout=1800, deadline=30, env=None
     except subprocess.TimeoutExpired:
         raise Inconclusive("driver timed out")
     if p.returncode != 0:
-        raise Inconclusive("driver failed rc=%d: %s" % (p.returncode, (p.stderr or "")[-2000:]))
+        err = p.stderr or ""
+        if ("panic:" in err or "fatal error:" in err) and "goroutine" in err:
+            # The process died inside the code under test (a panic in a goroutine the library started cannot be recovered by the caller).
+            # Run again, flushing after every event: the call that was in progress is the first job without an event; it gets the outcome "panic".
+            try:
+                subprocess.run([binary, "-in", jp, "-out", ep, "-deadline", str(deadline), "-flush"], capture_output=True, text=True, timeout=timeout, env=e)
+            except subprocess.TimeoutExpired:
+                raise Inconclusive("driver timed out")
+            evs = read_ndjson(ep)
+            if len(evs) < len(jobs):
+                k = len(evs)
+                first = next((l for l in err.splitlines() if l.startswith(("panic:", "fatal error:"))), "process died")
+                evs.append(dict(jobs[k], i=k + 1, res=dict(kind="panic", msg=("process died: " + first)[:200], died=True)))
+                return evs
+        raise Inconclusive("driver failed rc=%d: %s" % (p.returncode, err[-2000:]))
     evs = read_ndjson(ep)
     if len(evs) != len(jobs):
         raise Inconclusive("driver produced %d events for %d jobs" % (len(evs), len(jobs)))
